@@ -94,8 +94,27 @@ def netqasm_origin(exc: BaseException) -> Optional[str]:
         return None
     fr = _frames(exc)
     if fr and fr[-1][0] == "netqasm":
+        if isinstance(exc, (AttributeError, TypeError)) and _names_harness_class(str(exc)):
+            return None           # the implementation tripped over an object the harness injected: the harness is at fault
         return f"{fr[-1][1]}:{fr[-1][2]}"
     return None
+
+
+def _names_harness_class(text: str) -> bool:
+    """does an AttributeError / TypeError message name a class that is defined in this machinery (e.g. an instrumented
+    container or a stub stack that lacks a method the implementation now uses)?"""
+    import inspect
+    import re
+    names = set(re.findall(r"[A-Za-z_][A-Za-z0-9_]*", text))
+    for mod in list(sys.modules.values()):
+        fn = getattr(mod, "__file__", None)
+        if not fn or not os.path.abspath(fn).startswith(ROOT + os.sep):
+            continue
+        for nm, obj in list(vars(mod).items()):
+            if inspect.isclass(obj) and getattr(obj, "__module__", None) == mod.__name__ and obj.__name__ in names:
+                return True
+    # classes built with type(...) at run time (instrumented containers) carry these prefixes
+    return any(n.startswith(("Counting", "Sched", "Sim")) for n in names)
 
 
 def _frames(exc: BaseException) -> List[tuple]:
